@@ -63,6 +63,8 @@ class Sim:
         self.saved_cache = self.cache[0]
         if self.use_real:
             self.modules = sys.modules
+            for i in range(3):
+                sys.modules[f"verif_filler{i}"] = types.ModuleType(f"verif_filler{i}")
             _glue.add_glue_as_needed()  # settle whatever the real process has pending
         else:
             self.modules = {f"verif_filler{i}": types.ModuleType(f"verif_filler{i}") for i in range(3)}
@@ -78,6 +80,9 @@ class Sim:
             _glue.builtin_glue_pending.pop(n, None)
             if self.use_real:
                 sys.modules.pop(n, None)
+        if self.use_real:
+            for i in range(3):
+                sys.modules.pop(f"verif_filler{i}", None)
         self.cache[0] = self.saved_cache if not self.use_real else 0
 
     # -- glue functions
@@ -195,7 +200,8 @@ class Sim:
         return None
 
 
-# ops: 0 extract; 1..3 add name; 4..6 remove name; 7..9 add fresh object under name; 10..12 late builtin registration
+# ops: 0 extract; 1..3 add name; 4..6 remove name; 7..9 add fresh object under name; 10..12 late builtin registration;
+# 13 remove an unrelated, already scanned module
 def valid_ops(sim: Sim, early: bool, nn: int) -> List[int]:
     v = [0]
     for i in range(nn):
@@ -208,6 +214,11 @@ def valid_ops(sim: Sim, early: bool, nn: int) -> List[int]:
             v.append(4 + i)
         # built-in glue is registered while `import stackscope` runs, i.e. before any
         # extract can have happened; "late" only means "after the library was imported"
+        pass
+    # an already-scanned, unrelated module may disappear as well (op 13)
+    if any(k.startswith("verif_filler") for k in sim.modules):
+        v.append(13)
+    for i in range(nn):
         if not early and sim.extract_no == 0 and i not in sim.registered and sim.kinds[i] in ("builtin", "both", "builtin_raises", "both_module_raises"):
             v.append(10 + i)
     return v
@@ -223,6 +234,10 @@ def apply_op(sim: Sim, op: int) -> Optional[str]:
         assert sim.remove(op - 4)
     elif op <= 9:
         assert sim.add(op - 7, fresh=True)
+    elif op == 13:
+        k = next(k for k in sim.modules if k.startswith("verif_filler"))
+        del sim.modules[k]
+        sim.set_changed_since_scan = True
     else:
         sim.register_builtin(op - 10)
     return None
